@@ -632,7 +632,7 @@ func checkNonNilEdge(c *Ctx, fn *ssa.Function, s errSite, flow map[ssa.Value]boo
 		for _, in := range b.Instrs {
 			// E2-alt: a retry of the same callee on the same receiver supersedes e
 			if call, ok := in.(*ssa.Call); ok && sameCallee == c.A.Match && staticCallee(call) == sameCallee && call != s.call {
-				if recv == nil || (len(call.Call.Args) > 0 && call.Call.Args[0] == recv) {
+				if recv == nil || (len(call.Call.Args) > 0 && sameAddr(call.Call.Args[0], recv)) {
 					return
 				}
 			}
@@ -1258,4 +1258,21 @@ func (c *Ctx) allReturnsFail(fn *ssa.Function, S, prev *ssa.BasicBlock, known ma
 	}
 	walk(S, prev, known)
 	return problem
+}
+
+// sameAddr: the same SSA value, or the same chain of field addresses on the
+// same base (go/ssa computes &p.embedded anew at every use).
+func sameAddr(a, b ssa.Value) bool {
+	for i := 0; i < 6; i++ {
+		if a == b {
+			return true
+		}
+		fa, ok1 := a.(*ssa.FieldAddr)
+		fb, ok2 := b.(*ssa.FieldAddr)
+		if !ok1 || !ok2 || fa.Field != fb.Field {
+			return false
+		}
+		a, b = fa.X, fb.X
+	}
+	return false
 }
